@@ -50,8 +50,8 @@ ASSUMPTIONS = [
     'the region "below the minimum" is T < Tmin / P < Pmin strictly, "at or above the maximum" clamps (code reading; '
     'both give the same value on the boundary except for the documented zero below BOTH minima)',
 ]
-_Q = {'xsec': 50, 'ktable': 20, 'files': 6, 'zeros': 8}
-_T = {'xsec': 200, 'ktable': 80, 'files': 20, 'zeros': 25}
+_Q = {'xsec': 50, 'ktable': 20, 'files': 6, 'zeros': 8, 'long': 1}
+_T = {'xsec': 200, 'ktable': 80, 'files': 20, 'zeros': 25, 'long': 6}
 BUDGET = {
     'quick': [dict(name='boundscheck', env={'NUMBA_BOUNDSCHECK': '1'}, shards=8, cases=_Q)],
     'thorough': [dict(name='boundscheck', env={'NUMBA_BOUNDSCHECK': '1'}, shards=16, cases=_T),
@@ -72,7 +72,7 @@ REQUIRED = dict(
              'wngrid:full', 'wngrid:restricted', 'query:at-node', 'query:T-edge-midpoint', 'query:P-edge-midpoint',
              'query:interior', 'query:exact-Tmin', 'query:exact-Tmax', 'query:exact-Pmin', 'query:exact-Pmax',
              'magnitude:tiny', 'magnitude:mid', 'magnitude:large', 'magnitude:steep', 'magnitude:ones',
-             'exp-mode-zero-in-table', 'linear-mode-zero-in-table', 'live-switch:linear->exp', 'live-switch:exp->linear',
+             'exp-mode-zero-in-table', 'linear-mode-zero-in-table', 'live-switch:linear->exp', 'live-switch:exp->linear', 'history:thousand-requests-then-earlier-points-again',
              'live-switch:exp->exp', 'live-switch:linear->linear', 'table:single-P-node', 'table:single-T-node', 'wngrid:reused-work-array', 'route:hdf5'])
 EPS = float(np.finfo(float).eps)
 TOOL_ID = 3
@@ -607,6 +607,41 @@ def wl_xsec(ctx, rng, zeros=False):
                     'judged_calls': int(n)})
 
 
+def wl_long(ctx, rng):
+    """A long history on ONE opacity object (the object lives in the cache for a whole retrieval): over a thousand
+    distinct (T, P) requests, then requests for points it has served long before.  The contracts judge every call."""
+    layout = ['xsec', 'ktable'][rng.integers(0, 2)]
+    T, P = gen_grids(rng, ctx)
+    mode = ['linear', 'exp'][rng.integers(0, 2)]
+    if layout == 'xsec':
+        Fake = world.fake_opacity_class()
+        wn = world.wn_grid(rng, int(rng.integers(2, 6)))
+        x, mag = gen_values(rng, (len(P), len(T), len(wn)))
+        op = Fake('H2O', wn, T, P, x, interpolation_mode=mode)
+    else:
+        FakeK = fake_ktable_class()
+        wn = world.wn_grid(rng, int(rng.integers(2, 5)))
+        ng = int(rng.integers(1, 4))
+        x, mag = gen_values(rng, (len(P), len(T), len(wn), ng))
+        w = rng.random(ng) + 0.05
+        w /= w.sum()
+        op = FakeK('H2O', wn, T, P, x, w, interpolation_mode=mode)
+    qs = gen_queries(rng, T, P)
+    lP = np.log10(P)
+    n_new = int(rng.integers(700, 1100)) if ctx.tier == 'quick' else int(rng.integers(2000, 6000))
+    while len(qs) < n_new:
+        tq = float(rng.uniform(0.8 * T[0], 1.2 * T[-1]))
+        pq = float(10 ** rng.uniform(lP[0] - 0.5, lP[-1] + 0.5))
+        qs.append((tq, pq, 'interior'))
+    again = [qs[int(k)] for k in rng.integers(0, len(qs), int(rng.integers(150, 400)))]
+    qs = qs + [(t, p_, 'asked-long-before') for t, p_, _ in again]
+    ctx.observe('layout:' + layout, 'mode:' + mode, 'history:thousand-requests-then-earlier-points-again')
+    ctx.feature(layout=layout, mode=mode, history=len(qs))
+    n = run_queries(ctx, rng, op, qs, layout, mode)
+    ctx.sig('long', layout, mode, x.shape, float(x.sum()))
+    ctx.sample({'layout': layout, 'mode': mode, 'history': len(qs), 'judged_calls': int(n)})
+
+
 def wl_zeros(ctx, rng):
     wl_xsec(ctx, rng, zeros=True)
 
@@ -691,7 +726,7 @@ def wl_files(ctx, rng):
     os.remove(path)
 
 
-WORKLOADS = {'xsec': wl_xsec, 'ktable': wl_ktable, 'files': wl_files, 'zeros': wl_zeros}
+WORKLOADS = {'xsec': wl_xsec, 'ktable': wl_ktable, 'files': wl_files, 'zeros': wl_zeros, 'long': wl_long}
 
 LEVEL_TEXT = ('Exploration by runtime monitoring: icontract postconditions on the real InterpolatingOpacity.compute_opacity, '
               'Opacity.opacity and KTable.opacity decide every execution from the object\'s public table against an '
